@@ -95,8 +95,123 @@ pub fn examine(ctx: &Ctx, out: &mut Out, text: &str, gtext: &str, origin: &str) 
     }
 }
 
+/// Program and goals that mix universes: unknowns of every kind (type, const, lifetime) created by the
+/// solver under a `forall` that is NOT peeled into the query (it sits below a conjunction) and
+/// equated with, or resolved into, unknowns of the query's own universe.
+const UNIVERSE_PROGRAM: &str = "trait Foo<U> {}\ntrait Bar {}\ntrait Baz {}\nstruct A {}\nstruct S<const N> {}\nstruct G<Y> {}\nstruct L<'a> {}\n\
+impl<const N, X> Foo<X> for S<N> {}\nimpl<const N> Bar for S<N> {}\nimpl<Y, X> Foo<X> for G<Y> {}\nimpl<Y> Bar for G<Y> {}\n\
+impl<'a, X> Foo<X> for L<'a> {}\nimpl<'a> Bar for L<'a> {}\nimpl Baz for A {}\nimpl<Y> Baz for G<Y> where Y: Baz {}\n";
+
+struct UScope {
+    tys: Vec<String>,
+    consts: Vec<String>,
+    lts: Vec<String>,
+    fresh: usize,
+}
+
+fn u_term(rng: &mut crate::rng::Rng, sc: &UScope, depth: usize) -> String {
+    let mut opts: Vec<String> = vec!["A".into(), "u32".into()];
+    for t in &sc.tys {
+        opts.push(t.clone());
+        opts.push(t.clone());
+    }
+    for c in &sc.consts {
+        opts.push(format!("S<{}>", c));
+        opts.push(format!("[u32; {}]", c));
+    }
+    for l in &sc.lts {
+        opts.push(format!("L<{}>", l));
+    }
+    if depth > 0 {
+        opts.push(format!("G<{}>", u_term(rng, sc, depth - 1)));
+        opts.push(format!("G<{}>", u_term(rng, sc, depth - 1)));
+    }
+    opts[rng.usize_below(opts.len())].clone()
+}
+
+fn u_goal(rng: &mut crate::rng::Rng, sc: &mut UScope, depth: usize) -> String {
+    let pick = if depth == 0 { rng.weighted(&[5, 4, 0, 0, 0]) } else { rng.weighted(&[3, 3, 3, 4, 5]) };
+    match pick {
+        0 => {
+            // equation between a variable in scope and a term
+            if sc.tys.is_empty() {
+                return "A: Baz".into();
+            }
+            let x = sc.tys[rng.usize_below(sc.tys.len())].clone();
+            format!("{} = {}", x, u_term(rng, sc, 1))
+        }
+        1 => {
+            let x = u_term(rng, sc, 1);
+            match rng.usize_below(3) {
+                0 => format!("{}: Foo<{}>", x, u_term(rng, sc, 1)),
+                1 => format!("{}: Bar", x),
+                _ => format!("{}: Baz", x),
+            }
+        }
+        2 => format!("{}, {}", u_goal(rng, sc, depth - 1), u_goal(rng, sc, depth - 1)),
+        3 => {
+            sc.fresh += 1;
+            let v = format!("U{}", sc.fresh);
+            sc.tys.push(v.clone());
+            let g = u_goal(rng, sc, depth - 1);
+            sc.tys.retain(|t| *t != v);
+            format!("forall<{}> {{ {} }}", v, g)
+        }
+        _ => {
+            sc.fresh += 1;
+            match rng.weighted(&[4, 4, 2]) {
+                0 => {
+                    let v = format!("V{}", sc.fresh);
+                    sc.tys.push(v.clone());
+                    let g = u_goal(rng, sc, depth - 1);
+                    sc.tys.retain(|t| *t != v);
+                    format!("exists<{}> {{ {} }}", v, g)
+                }
+                1 => {
+                    let v = format!("N{}", sc.fresh);
+                    sc.consts.push(v.clone());
+                    let g = u_goal(rng, sc, depth - 1);
+                    sc.consts.retain(|t| *t != v);
+                    format!("exists<const {}> {{ {} }}", v, g)
+                }
+                _ => {
+                    let v = format!("'l{}", sc.fresh);
+                    sc.lts.push(v.clone());
+                    let g = u_goal(rng, sc, depth - 1);
+                    sc.lts.retain(|t| *t != v);
+                    format!("exists<{}> {{ {} }}", v, g)
+                }
+            }
+        }
+    }
+}
+
+/// `exists<T> { T = T, .. }`: the outer unknown lives in the query's universe, what follows is not peeled
+fn universe_goal(rng: &mut crate::rng::Rng) -> String {
+    let mut sc = UScope { tys: vec!["T".into()], consts: vec![], lts: vec![], fresh: 0 };
+    let two = rng.chance(1, 3);
+    if two {
+        sc.tys.push("T2".into());
+    }
+    let body = u_goal(rng, &mut sc, 3);
+    let head = if rng.chance(1, 2) { "T = T, ".to_string() } else { "T: Bar, ".to_string() };
+    format!("exists<T{}> {{ {}{} }}", if two { ", T2" } else { "" }, head, body)
+}
+
 pub fn run(ctx: &Ctx, out: &mut Out) {
     let mut idx = 0usize;
+    // goals that mix universes (see UNIVERSE_PROGRAM)
+    let nuni = ctx.budget(600, 20000);
+    for i in 0..nuni {
+        idx += 1;
+        if !ctx.mine(idx) {
+            continue;
+        }
+        let mut rng = ctx.rng(3, i as u64);
+        let g = universe_goal(&mut rng);
+        out.count("universe_goals");
+        examine(ctx, out, UNIVERSE_PROGRAM, &g, "universes");
+    }
     for case in suite::load("/repo/tests/test") {
         for g in &case.goals {
             idx += 1;
